@@ -330,12 +330,12 @@ func runC10(w *fw.W) {
 		w.Begin("zero divisors of every int-like kind", nil)
 		var vs violSet
 		n := 0
-		zeros := []string{"0", "false", "Int.bear.new(0)", "(Z := Int.bear; Z.new(3) - Z.new(3))", "(5 - 5)", "(0 * 7)", "-0", "[].len", "Int.bear({k: 1}).new(0)", "0.0.I"}
+		zeros := []string{"0", "false", "Int.bear.new(0)", "{|| z := Int.bear; z.new(3) - z.new(3)}()", "(5 - 5)", "(0 * 7)", "-0", "[].len", "Int.bear({k: 1}).new(0)", "\"0\".I", "[0][0]"}
 		nums := []string{"7", "-7", "0", "9223372036854775807", "Int.bear.new(6)", "true"}
 		for _, z := range zeros {
 			zo := ip.Run(z, interp.Options{})
 			if !zo.OK() {
-				continue
+				panic("C10 harness: zero spelling does not evaluate: " + z + " → " + zo.Outcome())
 			}
 			for _, a := range nums {
 				for _, op := range []string{"/", "//", "%"} {
